@@ -189,7 +189,7 @@ def check(ctx):
         c = pc[-1]
         txt = ir.show(c[0], maxdepth=12)
         diffs = [x for x in ir.walk(c[0]) if x[0] == "call" and x[1] == ("global", "numpy.diff") and x[2]]
-        if diffs and "results_turnout" in txt and ">= 0" in txt and "numpy.all" in txt:
+        if diffs and "results_turnout" in txt and ">= 0" in txt and ("numpy.all" in txt or ">= 0).all()" in txt):
             okc = (not c[1]) or txt.startswith("(not ")
             # the test has to look at the turnout history ITSELF: the share of the final turnout (turnout / turnout[-1], written
             # into a zero buffer where the final turnout is 0) is constant 0 for a history that ends with no votes, which then
@@ -260,15 +260,17 @@ def check(ctx):
     PERCS = d["percent_expected_vote"]
     EST = d["est_margin"]
     # PERCS = arange(0, int(max(PV)) + 1)
-    okp = (PERCS[0] == "call" and ir.show(PERCS[1]).endswith("arange") and len(PERCS[2]) == 2 and PERCS[2][0] == ("const", 0)
-           and PERCS[2][1][0] == "bin" and PERCS[2][1][1] == "+" and PERCS[2][1][3] == ("const", 1)
-           and PERCS[2][1][2][0] == "call" and PERCS[2][1][2][1] == ("global", "int") and ir.show(PERCS[2][1][2][2][0][1]).endswith("max")
-           and _colarr(PERCS[2][1][2][2][0][2][0]) == "percent_expected_vote")
+    # (the def-use engine writes arange(0, n) as arange(n))
+    TOP = PERCS[2][0] if PERCS[0] == "call" and ir.show(PERCS[1]).endswith("arange") and len(PERCS[2]) == 1 and not PERCS[3] else ("const", None)
+    okp = (TOP[0] == "bin" and TOP[1] == "+" and TOP[3] == ("const", 1)
+           and TOP[2][0] == "call" and TOP[2][1] == ("global", "int") and len(TOP[2][2]) == 1 and TOP[2][2][0][0] == "call"
+           and ir.show(TOP[2][2][0][1]).endswith("max") and len(TOP[2][2][0][2]) >= 1
+           and _colarr(TOP[2][2][0][2][0]) == "percent_expected_vote")
     ctx.ob("C17.R5.percents", f"{g.qualname}|one row per whole percent 0..int(max percent)", okp, g.where(main[0][2]),
            "percents = arange(0, int(max(percent_expected_vote)) + 1)" if okp else f"percent axis is {ir.show(PERCS, maxdepth=5)}")
     if not okp:
         return
-    PV = PERCS[2][1][2][2][0][2][0]
+    PV = TOP[2][2][0][2][0]
     IDX = None
     for t in ir.walk(EST):
         if t[0] == "bin" and t[1] == "-" and t[3] == ("const", 1) and t[2][0] == "call" and ir.show(t[2][1]).endswith("searchsorted"):
